@@ -71,9 +71,26 @@ def concrete_oracle(rp, statuses, obs):
     return sorted(set(bad))
 
 
+def link_race():
+    """the lock discipline has no sequential observable: park a link on the tree lock, let the child finish its exit, release"""
+    import native
+    out, _l, rc, err = native.run('link_race', timeout=30)
+    if rc != 0:
+        raise RuntimeError('native link_race failed: ' + err[-300:])
+    out = dict(out)
+    bad = []
+    if out.get('child_status') == '6' and (out.get('child_has_supervisor') != '0' or out.get('sup_children') != '0' or out.get('link_ret') != '0'):
+        bad.append('a stopped actor was linked: %s' % out)
+    return bad, out
+
+
 def replay(rp, statuses):
     obs = run_native(rp, statuses)
     bad = concrete_oracle(rp, statuses, obs)
+    if not bad and rp['op'] in ('link', 'unlink', 'take'):
+        rb, ro = link_race()
+        if rb:
+            return {'replayed': True, 'detail': 'native link parked on the tree lock while the child exits: %s' % rb, 'replay': {'scenario': 'link_race'}}
     return {'replayed': bool(bad), 'detail': 'native %s(%s%s) from sup=%s closed=%s statuses=%s -> %s ; violated %s' % (
         rp['op'], rp['a'], '' if rp['b'] is None else ',%d' % rp['b'], rp['sup'], rp['closed'], statuses, obs, bad),
         'replay': {'scenario': 'supervision', 'rp': rp, 'statuses': statuses, 'violated': bad}}
